@@ -44,7 +44,9 @@ const (
 	THA2   = 5 // second aggregated handler type
 	TCA2   = 6 // second aggregated channel type
 	TNone  = 7 // registered on the network but neither handler nor channel in the protocol
-	NTypes = 8
+	TCB1   = 8 // channel, aggregated, RegisterChannelLength(.., 1)
+	TCB2   = 9 // channel, aggregated, RegisterChannelLength(.., 2)
+	NTypes = 10
 )
 
 // Claimed sender codes (Msg.From); values >= 0 are DFS positions in the tree.
@@ -111,6 +113,16 @@ type Scenario struct {
 	// first message arrives; they park it, request the tree from the envelope's
 	// peer and dispatch the parked messages when the tree has arrived.
 	LateTree bool `json:"late_tree,omitempty"`
+	// Backlog: the protocol does not read its channels while the messages are
+	// handed to the instance; only the LAST message is a fence.  The worker waits
+	// until the dispatch of BlockAt messages has started (the point where the
+	// unchanged code blocks in the channel send when BlockAt < number of
+	// messages), then sends the fence and reads the channels until the fence
+	// has come through.
+	Backlog bool `json:"backlog,omitempty"`
+	BlockAt int  `json:"block_at,omitempty"`
+	// WaitMs overrides the deadline after which a fence is declared missing.
+	WaitMs int `json:"wait_ms,omitempty"`
 }
 
 // Elem is one (node, message) pair seen by a handler or read from a channel.
@@ -154,6 +166,8 @@ type MsgCA struct{ P int64 }
 type MsgHA2 struct{ P int64 }
 type MsgCA2 struct{ P int64 }
 type MsgNone struct{ P int64 }
+type MsgCB1 struct{ P int64 }
+type MsgCB2 struct{ P int64 }
 
 // ConnFence travels on the same connection as a forged message (route conn);
 // the router dispatches synchronously per connection, so when it arrives the
@@ -177,6 +191,14 @@ type proto struct {
 	ca2 chan []struct {
 		*onet.TreeNode
 		MsgCA2
+	}
+	cb1 chan []struct {
+		*onet.TreeNode
+		MsgCB1
+	}
+	cb2 chan []struct {
+		*onet.TreeNode
+		MsgCB2
 	}
 }
 
@@ -321,6 +343,12 @@ func newProto(tni *onet.TreeNodeInstance) (onet.ProtocolInstance, error) {
 	if err := p.RegisterChannelsLength(100, &p.c1, &p.ca, &p.ca2); err != nil {
 		return nil, err
 	}
+	if err := p.RegisterChannelLength(&p.cb1, 1); err != nil {
+		return nil, err
+	}
+	if err := p.RegisterChannelLength(&p.cb2, 2); err != nil {
+		return nil, err
+	}
 	err := p.RegisterHandlers(
 		func(m struct {
 			*onet.TreeNode
@@ -392,6 +420,20 @@ func (w *worker) drain(p *proto) {
 			}
 			w.deliver(p, TCA2, true, es)
 			continue
+		case ms := <-p.cb1:
+			var es []Elem
+			for _, m := range ms {
+				es = append(es, Elem{w.pos(p, m.TreeNode), m.P})
+			}
+			w.deliver(p, TCB1, true, es)
+			continue
+		case ms := <-p.cb2:
+			var es []Elem
+			for _, m := range ms {
+				es = append(es, Elem{w.pos(p, m.TreeNode), m.P})
+			}
+			w.deliver(p, TCB2, true, es)
+			continue
 		default:
 		}
 		return
@@ -422,15 +464,23 @@ func mkMsg(typ int, p int64) interface{} {
 		return &MsgHA2{p}
 	case TCA2:
 		return &MsgCA2{p}
+	case TCB1:
+		return &MsgCB1{p}
+	case TCB2:
+		return &MsgCB2{p}
 	default:
 		return &MsgNone{p}
 	}
 }
 
-const waitFor = 20 * time.Second
+var waitFor = 20 * time.Second
 
 func (w *worker) run(sc *Scenario) {
 	res := Result{}
+	waitFor = 20 * time.Second
+	if sc.WaitMs > 0 {
+		waitFor = time.Duration(sc.WaitMs) * time.Millisecond
+	}
 	// ---- cluster
 	net := sc.Net
 	if net == "" {
@@ -594,6 +644,14 @@ loop:
 			status, detail = "error", "bad instance index"
 			break
 		}
+		if sc.Backlog && m.Type == TFence {
+			// everything before the fence has been handed over; wait until the instance has
+			// started dispatching BlockAt of them (Rx counts one per message)
+			if st, det := w.backlogWait(sc, i); st != "" {
+				status, detail = st, det
+				break loop
+			}
+		}
 		to := toks[m.Inst]
 		target := w.servers[res.Nodes[sc.Insts[m.Inst]].Srv]
 		ov := w.local.Overlays[target.ServerIdentity.ID]
@@ -612,17 +670,17 @@ loop:
 		body := mkMsg(m.Type, m.Payload)
 		switch m.Route {
 		case "transmit":
-			pm := &onet.ProtocolMsg{From: from, To: to, ServerIdentity: peer, Msg: body, MsgType: network.MessageType(body)}
+			pm := &onet.ProtocolMsg{From: from, To: to, ServerIdentity: peer, Msg: body, MsgType: network.MessageType(body), Size: 1}
 			_ = ov.TransmitMsg(pm, nil)
 		case "process", "conn":
 			buf, err := network.Marshal(body)
 			if err != nil {
-				status, detail = "error", "marshal: "+err.Error()
+				status, detail = "hung", "marshal failed: "+err.Error()
 				break loop
 			}
 			pm := &onet.ProtocolMsg{From: from, To: to, ServerIdentity: wire, MsgSlice: buf, MsgType: network.MessageType(body)}
 			if m.Route == "process" {
-				ov.Process(&network.Envelope{ServerIdentity: peer, MsgType: onet.ProtocolMsgID, Msg: pm})
+				ov.Process(&network.Envelope{ServerIdentity: peer, MsgType: onet.ProtocolMsgID, Msg: pm, Size: 1})
 			} else {
 				type sender interface {
 					Send(e *network.ServerIdentity, msgs ...network.Message) (uint64, error)
@@ -647,18 +705,18 @@ loop:
 					src = w.servers[m.Peer]
 				}
 				if _, err := src.Send(target.ServerIdentity, pm); err != nil {
-					status, detail = "error", "send: "+err.Error()
+					status, detail = "hung", "send failed: "+err.Error()
 					break loop
 				}
 				seq++
 				if _, err := src.Send(target.ServerIdentity, &ConnFence{seq}); err != nil {
-					status, detail = "error", "send fence: "+err.Error()
+					status, detail = "hung", "send of the connection fence failed: "+err.Error()
 					break loop
 				}
 				select {
 				case s := <-w.cfence:
 					if s != seq {
-						status, detail = "error", "connection fence out of order"
+						status, detail = "hung", "connection fence out of order"
 						break loop
 					}
 				case <-time.After(waitFor):
@@ -670,17 +728,27 @@ loop:
 			status, detail = "error", "bad route"
 			break loop
 		}
-		if m.Type == TFence {
+		if m.Type == TFence && sc.Backlog {
+			if st, det := w.backlogRead(m.Payload); st != "" {
+				status, detail = st, det
+				break loop
+			}
+		} else if m.Type == TFence {
 			var fe fenceEv
-			select {
-			case fe = <-w.fence:
-				if fe.e.Payload != m.Payload {
-					status, detail = "error", "fence payload mismatch"
+			timeout := time.After(waitFor)
+		waitFence:
+			for {
+				select {
+				case fe = <-w.fence:
+					if fe.e.Payload == m.Payload {
+						break waitFence
+					}
+					// a fence nobody is waiting for (delivered twice, or late): it is an observation
+					w.deliver(fe.p, TFence, false, []Elem{fe.e})
+				case <-timeout:
+					status, detail = "hung", fmt.Sprintf("fence after message %d not delivered", i-1)
 					break loop
 				}
-			case <-time.After(waitFor):
-				status, detail = "hung", fmt.Sprintf("fence after message %d not delivered", i-1)
-				break loop
 			}
 			w.mu.Lock()
 			var ps []*proto
@@ -712,6 +780,79 @@ loop:
 	w.emit(line{End: status, Det: detail})
 }
 
+func (w *worker) anyProto() *proto {
+	w.mu.Lock()
+	defer w.mu.Unlock()
+	for _, p := range w.protos {
+		return p
+	}
+	return nil
+}
+
+// backlogWait: n messages have been handed to the (single) instance, none read.
+func (w *worker) backlogWait(sc *Scenario, n int) (string, string) {
+	p := w.anyProto()
+	if p == nil || n == 0 {
+		return "", ""
+	}
+	want := sc.BlockAt
+	if want <= 0 || want > n {
+		want = n
+	}
+	deadline := time.Now().Add(waitFor)
+	for int(p.Rx()) < want {
+		if time.Now().After(deadline) {
+			return "hung", fmt.Sprintf("only %d of %d messages reached dispatchMsgToProtocol", p.Rx(), want)
+		}
+		time.Sleep(time.Millisecond)
+	}
+	// grace: an implementation that does not wait for the reader runs on from here
+	for k := 0; k < 30 && int(p.Rx()) < n; k++ {
+		time.Sleep(time.Millisecond)
+	}
+	return "", ""
+}
+
+// backlogRead: the protocol starts reading; it reads whatever comes until the fence has come through.
+func (w *worker) backlogRead(payload int64) (string, string) {
+	p := w.anyProto()
+	if p == nil {
+		return "hung", "no instance was created for the messages handed over"
+	}
+	batch := func(typ int, n int, at func(i int) (*onet.TreeNode, int64)) {
+		var es []Elem
+		for i := 0; i < n; i++ {
+			tn, pl := at(i)
+			es = append(es, Elem{w.pos(p, tn), pl})
+		}
+		w.deliver(p, typ, true, es)
+	}
+	for {
+		select {
+		case fe := <-w.fence:
+			if fe.e.Payload != payload {
+				w.deliver(fe.p, TFence, false, []Elem{fe.e})
+				continue
+			}
+			w.drain(fe.p)
+			w.deliver(fe.p, TFence, false, []Elem{fe.e})
+			return "", ""
+		case ms := <-p.cb1:
+			batch(TCB1, len(ms), func(i int) (*onet.TreeNode, int64) { return ms[i].TreeNode, ms[i].P })
+		case ms := <-p.cb2:
+			batch(TCB2, len(ms), func(i int) (*onet.TreeNode, int64) { return ms[i].TreeNode, ms[i].P })
+		case ms := <-p.ca:
+			batch(TCA, len(ms), func(i int) (*onet.TreeNode, int64) { return ms[i].TreeNode, ms[i].P })
+		case ms := <-p.ca2:
+			batch(TCA2, len(ms), func(i int) (*onet.TreeNode, int64) { return ms[i].TreeNode, ms[i].P })
+		case m := <-p.c1:
+			w.deliver(p, TC1, false, []Elem{{w.pos(p, m.TreeNode), m.P}})
+		case <-time.After(waitFor):
+			return "hung", "the fence behind the backlog did not come through"
+		}
+	}
+}
+
 // ChildMain is the entry point of a worker process.
 func ChildMain() {
 	out := os.NewFile(3, "results")
@@ -719,7 +860,7 @@ func ChildMain() {
 	if _, err := onet.GlobalProtocolRegister(protoName, newProto); err != nil {
 		panic(err)
 	}
-	network.RegisterMessages(&MsgFence{}, &MsgH1{}, &MsgHA{}, &MsgC1{}, &MsgCA{}, &MsgHA2{}, &MsgCA2{}, &MsgNone{}, &ConnFence{})
+	network.RegisterMessages(&MsgFence{}, &MsgH1{}, &MsgHA{}, &MsgC1{}, &MsgCA{}, &MsgHA2{}, &MsgCA2{}, &MsgNone{}, &MsgCB1{}, &MsgCB2{}, &ConnFence{})
 	w = &worker{out: out, trees: map[string]*builtTree{}, fence: make(chan fenceEv, 1000), cfence: make(chan int64, 1000),
 		protos: map[onet.RoundID]*proto{}, instOf: map[onet.RoundID]int{}, nodePos: map[*onet.TreeNode]int{}, clusters: map[string]*cluster{}}
 	w.clusters["local"] = newCluster(onet.NewLocalTest(suite))
@@ -769,7 +910,11 @@ type child struct {
 
 // Pool keeps warm worker processes.
 type Pool struct {
-	spares chan *child
+	// Hung counts scenarios that ran into a deadline; after a few of them the
+	// deadline is shortened so that a wedged implementation does not eat the time budget.
+	Hung      int
+	LateDeath int // workers found dead between two scenarios
+	spares    chan *child
 	cur    *child
 	all    []*child
 	mu     sync.Mutex
@@ -890,11 +1035,25 @@ func (p *Pool) Run(sc *Scenario) Result {
 		}
 	}
 	c := p.cur
+	if p.Hung >= 5 && sc.WaitMs == 0 {
+		cp := *sc
+		cp.WaitMs = 2000
+		sc = &cp
+	}
 	b, _ := json.Marshal(sc)
 	b = append(b, '\n')
 	res := Result{Status: "crashed"}
 	if _, err := c.in.Write(b); err != nil {
-		res.Status, res.Detail = "error", "cannot write to worker"
+		// the worker died after it had reported the end of the previous scenario: that is a
+		// crash of the implementation which nobody has been told about yet
+		p.LateDeath++
+		det := "the worker died after the PREVIOUS scenario had been reported complete: " + c.crashDetail()
+		c.kill()
+		p.cur = nil
+		go p.add()
+		res = Result{Status: "crashed", Detail: det}
+		fallbackSetup(sc, &res)
+		return res
 	}
 	for {
 		l, err := c.out.ReadBytes('\n')
@@ -926,8 +1085,47 @@ func (p *Pool) Run(sc *Scenario) Result {
 		c.isDead = true
 		res.Detail = c.crashDetail()
 	}
+	if res.Status == "hung" {
+		p.Hung++
+	}
 	c.kill()
 	p.cur = nil
 	go p.add()
+	fallbackSetup(sc, &res)
 	return res
+}
+
+// fallbackSetup fills in what the worker reports before it injects anything, for a worker
+// that died (or wedged) even earlier: node ids derive from the server key, so the id classes
+// are the servers in order of first appearance; unknown senders get fresh numbers.
+func fallbackSetup(sc *Scenario, res *Result) {
+	if len(res.Nodes) > 0 && len(res.FromIDs) == len(sc.Msgs) {
+		return
+	}
+	res.Nodes, res.FromIDs = nil, nil
+	class := map[int]int{}
+	var walk func(t *TreeSpec, parent int)
+	walk = func(t *TreeSpec, parent int) {
+		if _, ok := class[t.Srv]; !ok {
+			class[t.Srv] = len(class)
+		}
+		me := len(res.Nodes)
+		res.Nodes = append(res.Nodes, Node{ID: class[t.Srv], Srv: t.Srv, Parent: parent, NCh: len(t.Ch)})
+		for i := range t.Ch {
+			walk(&t.Ch[i], me)
+		}
+	}
+	walk(&sc.Tree, -1)
+	fresh := len(class)
+	for _, m := range sc.Msgs {
+		switch {
+		case m.From >= 0 && m.From < len(res.Nodes):
+			res.FromIDs = append(res.FromIDs, res.Nodes[m.From].ID)
+		case m.From == FromAbsent:
+			res.FromIDs = append(res.FromIDs, -1)
+		default:
+			res.FromIDs = append(res.FromIDs, fresh)
+			fresh++
+		}
+	}
 }
